@@ -52,6 +52,9 @@ fn gen_atom(rng: &mut Rng, ty: Ty) -> E {
     }
 }
 
+/// `-0` is the literal 0 in the real AST when folded and `(neg 0)` otherwise; generated trees avoid it
+fn no_zero(e: E) -> E { if e == E::Atom(Atom::Int(0)) { E::Atom(Atom::Int(1)) } else { e } }
+
 fn any_ty(rng: &mut Rng) -> Ty { *rng.pick(&[Ty::Int, Ty::Int, Ty::Float, Ty::Bool, Ty::Str]) }
 
 fn gen_typed(rng: &mut Rng, ty: Ty, depth: usize) -> E {
@@ -62,7 +65,7 @@ fn gen_typed(rng: &mut Rng, ty: Ty, depth: usize) -> E {
     let b = |e: E| Box::new(e);
     match ty {
         Ty::Int => match rng.below(9) {
-            0 => E::Neg(b(gen_typed(rng, Ty::Int, d))),
+            0 => E::Neg(b(no_zero(gen_typed(rng, Ty::Int, d)))),
             n => {
                 let op = [Op::Add, Op::Sub, Op::Mul, Op::Div, Op::Mod, Op::Pow, Op::Add, Op::Mod][(n - 1) as usize];
                 E::Bin(op, b(gen_typed(rng, Ty::Int, d)), b(gen_typed(rng, Ty::Int, d)))
@@ -224,7 +227,7 @@ fn gen_untyped(rng: &mut Rng, depth: usize) -> E {
             let op = *rng.pick(&ALL_OPS);
             E::Bin(op, b(gen_untyped(rng, d)), b(gen_untyped(rng, d)))
         }
-        10 | 11 => E::Neg(b(gen_untyped(rng, d))),
+        10 | 11 => E::Neg(b(no_zero(gen_untyped(rng, d)))),
         12 => E::Not(b(gen_untyped(rng, d))),
         13 => E::Member(b(gen_untyped(rng, d)), gen_ident(rng)),
         14 => E::Index(b(gen_untyped(rng, d)), b(gen_untyped(rng, d))),
@@ -314,11 +317,21 @@ fn main() {
         let (src, _) = print_minimal(&t);
         jobs.push(Job { src, tree: Some(t), kind: "typed", eval: true, minimal: true });
     }
+    // continuation-line layouts of typed trees: same tree, same value as the one-line spelling
+    for i in 0..(n_typed / 2) {
+        let depth = 1 + (i % max_depth);
+        let ty = any_ty(&mut ctx.rng);
+        let t = gen_typed(&mut ctx.rng, ty, depth);
+        let src = with_continuations(&mut ctx.rng, &print_minimal_tokens(&t));
+        jobs.push(Job { src, tree: Some(t), kind: "typed-continuation", eval: true, minimal: false });
+    }
     for i in 0..n_untyped {
         let depth = 1 + (i % max_depth);
         let t = gen_untyped(&mut ctx.rng, depth);
-        let src = if i % 3 == 2 { print_redundant(&t, &mut ctx.rng) } else { print_minimal(&t).0 };
-        jobs.push(Job { src, tree: Some(t), kind: if i % 3 == 2 { "redundant" } else { "untyped" }, eval: false, minimal: i % 3 != 2 });
+        let src = if i % 3 == 2 { print_redundant(&t, &mut ctx.rng) }
+                  else if i % 3 == 1 && i % 2 == 0 { with_continuations(&mut ctx.rng, &print_minimal_tokens(&t)) }
+                  else { print_minimal(&t).0 };
+        jobs.push(Job { src, tree: Some(t), kind: if i % 3 == 2 { "redundant" } else { "untyped" }, eval: false, minimal: i % 3 == 0 || (i % 3 == 1 && i % 2 == 1) });
     }
     for _ in 0..n_soup {
         jobs.push(Job { src: gen_soup(&mut ctx.rng), tree: None, kind: "soup", eval: false, minimal: false });
@@ -338,6 +351,10 @@ fn main() {
                     (format!("(\n a {} - {lt} {} c \n) {} d", op1.text(), op2.text(), op1.text()), format!("(\n a {} - zq {} c \n) {} d", op1.text(), op2.text(), op1.text())),
                     (format!("f ( a {} - {lt} {} c , - {lt} {} c )", op1.text(), op2.text(), op2.text()), format!("f ( a {} - zq {} c , - zq {} c )", op1.text(), op2.text(), op2.text())),
                 ];
+                let mut shapes = shapes;
+                // continuation lines: the operand `-L …` starts on the next line (also behind a comment)
+                shapes.push((format!("a {}\n - {lt} {} c", op1.text(), op2.text()), format!("a {}\n - zq {} c", op1.text(), op2.text())));
+                shapes.push((format!("a {} // c\n\n  - {lt} {}\n c", op1.text(), op2.text()), format!("a {} // c\n\n  - zq {}\n c", op1.text(), op2.text())));
                 for (l, v) in shapes { fam.push(FamJob { lit: l, var: v, lit_sexpr: ls.to_string(), eval: None }); }
             }
             // three-operator chains on a rotating third operator
@@ -347,6 +364,16 @@ fn main() {
                 fam.push(FamJob { lit: format!("a {} - {lt} {} c {} d", op1.text(), op2.text(), op3.text()),
                                   var: format!("a {} - zq {} c {} d", op1.text(), op2.text(), op3.text()), lit_sexpr: ls.to_string(), eval: None });
             }
+        }
+    }
+    for op1 in ALL_OPS.iter() {
+        for (l, v) in [(format!("a {}\n not b", op1.text()), format!("a {} not b", op1.text())),
+                       (format!("a {}\n ( b )", op1.text()), format!("a {} ( b )", op1.text())),
+                       (format!("a {}\n\n - x", op1.text()), format!("a {} - x", op1.text())),
+                       (format!("not\n a {}\n - ( b )", op1.text()), format!("not a {} - ( b )", op1.text())),
+                       (format!("f (\n - 2 {} c ,\n not b , [\n - x ] )", op1.text()), format!("f ( - 2 {} c , not b , [ - x ] )", op1.text()))] {
+            // `var` here is the one-line spelling: same tree required
+            fam.push(FamJob { lit: l, var: v, lit_sexpr: "zq".into(), eval: None });
         }
     }
     // evaluated instances (operands chosen so that the two possible groupings give different values)
@@ -399,11 +426,33 @@ fn main() {
         }
     }
 
+    // ---- hard regression probes for D85 (7fe8312) and the statement boundary
+    for (src, want) in [("3 +\n -2 ^ 2", "ok (add 3 (neg (pow 2 2)))"), ("3 +\n -x", "ok (add 3 (neg x))"),
+                        ("true and\n not b", "ok (and true (not b))"), ("1\n- x", "partial 1 1"), ("a\n( b )", "partial 1 a")] {
+        let got = impl_answer(src);
+        ctx.count("probe:D85");
+        if got != want { ctx.spec_fail(format!("D85 probe {src:?}: parser answered {got}, expected {want}")); }
+    }
+    for (prog, want) in [("println(3 +\n -2 ^ 2)\n", "-1\n"), ("let x = 5\nlet p = 1\n-x\nprintln(p)\n", "1\n"),
+                         ("let b = false\nprintln(true and\n not b)\n", "true\n"), ("let x = 4\nlet r =\n -x * 2\nprintln(r)\n", "-8\n")] {
+        let r = run_program(prog);
+        ctx.count("probe:D85");
+        if r.outcome != Outcome::Done || r.out != want {
+            ctx.spec_fail(format!("D85 probe {prog:?}: outcome {:?} output {:?}, expected {want:?}", r.outcome, r.out));
+        }
+    }
+
     let decls = prelude_decls();
     let results = par_map(&jobs, |j| {
         let ans = impl_answer(&j.src);
         let (words, lex_errs) = lex_words(&j.src);
-        let run = if j.eval { Some(run_program(&format!("{decls}println({})\n", j.src))) } else { None };
+        let run = if j.eval {
+            Some(run_program(&match (j.kind, j.src.len() % 3) {
+                ("typed-continuation", 0) => format!("{decls}let r9 =\n{}\nprintln(r9)\n", j.src),
+                ("typed-continuation", 1) => format!("{decls}let r9 = match 0 {{ _ ->\n {} }}\nprintln(r9)\n", j.src),
+                _ => format!("{decls}println({})\n", j.src),
+            }))
+        } else { None };
         (ans, words, lex_errs, run)
     });
 
